@@ -4,13 +4,14 @@
 //!
 //! kinds
 //!   "rt"  in  = [w, r, name, records, shards]
-//!         out = [sig(stored), stored == same writer's output under a neutral name,
+//!         out = [tag, sig(stored), stored == same writer's output under a neutral name,
 //!                first 16 stored bytes, first 16 bytes of the neutral output, read outcome]
 //!               | ["werr"]
 //!   "raw" in  = [r, name, origin, hdr, expect_verbatim, expect_decoded]
 //!               origin = ["lit", {"bytes": content}] | ["enc", w, encname, records, shards]
 //!               (enc: written by the real writer `w` to `encname`, bytes copied to `name`)
-//!         out = [first 16 bytes of the file, read outcome]
+//!         out = [tag, first 16 bytes of the file, read outcome, reference plain parse]
+//!   (tag = the read outcome's tag again, first so that the evidence histogram shows it)
 //!   read outcome = ["ok", records] | ["err"] | ["panic"];  records = [[k, v], ...]
 //! Entry-point numbering = constructor order of writer_ep / reader_ep in IO/Compression.v.
 use ibv::{Emitter, SplitMix64, Tier, drive};
@@ -396,7 +397,7 @@ fn run(kind: &str, input: &Value) -> Value {
                 };
                 st.delete_object(BUCKET, "zz/plain").unwrap();
                 let ro = do_read(r, &Loc::Cloud(&st, &name), false);
-                json!([sig_idx(&stored), stored == plain, head(&stored), head(&plain), ro])
+                json!([ro[0].clone(), sig_idx(&stored), stored == plain, head(&stored), head(&plain), ro])
             } else {
                 if name.contains('/') {
                     return json!(["invalid"]);
@@ -411,7 +412,7 @@ fn run(kind: &str, input: &Value) -> Value {
                     return json!(["werr"]);
                 };
                 let ro = do_read(r, &Loc::File(&target), false);
-                json!([sig_idx(&stored), stored == plain, head(&stored), head(&plain), ro])
+                json!([ro[0].clone(), sig_idx(&stored), stored == plain, head(&stored), head(&plain), ro])
             }
         }
         "raw" => {
@@ -465,7 +466,7 @@ fn run(kind: &str, input: &Value) -> Value {
             if rfmt(r) == Fmt::Cloud {
                 st.put_object(BUCKET, &name, &content).unwrap();
                 let ro = do_read(r, &Loc::Cloud(&st, &name), hdr);
-                json!([head(&content), ro, reference])
+                json!([ro[0].clone(), head(&content), ro, reference])
             } else {
                 if name.contains('/') {
                     return json!(["invalid"]);
@@ -473,7 +474,7 @@ fn run(kind: &str, input: &Value) -> Value {
                 let target = cd.sub("t").join(&name);
                 std::fs::write(&target, &content).expect("write raw file");
                 let ro = do_read(r, &Loc::File(&target), hdr);
-                json!([head(&content), ro, reference])
+                json!([ro[0].clone(), head(&content), ro, reference])
             }
         }
         _ => json!(["bad-kind"]),
@@ -650,7 +651,7 @@ fn generate(seed: u64, tier: Tier, em: &mut Emitter) {
         for (ni, name) in raw_names.into_iter().enumerate() {
             emit_lit(em, r, name, &[], false, &["raw", "empty-file"]);
             emit_lit(em, r, name, &text, false, &["raw", "plain"]);
-            if !thorough && !(ni == 0 || ni == 2 || ni == 7) {
+            if !thorough && !(ni <= 2 || ni == 7) {
                 continue;
             }
             for sig in SIGS.iter() {
